@@ -123,6 +123,7 @@ func C02() int {
 			}
 		}
 	})
+	optionHistory(s, c, base)
 	reportBatchAnomalies(c)
 	c.Set("reassigned_leaves_by_class", classSeen)
 	c.Set("flag_sets", flagNames(fsets))
